@@ -5,6 +5,7 @@ import (
 	"math/rand"
 	"reflect"
 	"strings"
+	"time"
 
 	"rvharness/internal/core"
 
@@ -468,6 +469,9 @@ func c07Check(c *core.Ctx, cases []c07Case) []core.Outcome {
 			o.Buckets = append(o.Buckets, "compile-error")
 			continue
 		}
+		// a generated pattern can backtrack exponentially; such a case is skipped (bucket match-error), C14 is
+		// the property about timeouts
+		re.MatchTimeout = 2 * time.Second
 		seq, ok := c07Oracle(cs, re, o)
 		if !ok {
 			continue
